@@ -25,12 +25,15 @@ print(len(cands), 'candidates; using', nth)
 ob = cands[nth]
 print(ob.id, ob.where, ob.env.get('trail'))
 hint_fn = R_.hints_for(E, ob)
-subs = smt.split_goal(smt.flatten_hyps(ob.pc), ob.goal, [])
 def setup(sk):
     st = E.st = State(); st.vars = dict(ob.env['vars']); st.heap = ob.env['heap'].copy(); st.nref = ob.env['nref']; st.labels = dict(ob.env['labels'])
     for c_ in sk: st.vars[str(c_).split('!')[1]] = V('real' if c_.sort()==R else 'int', c_)
     if ob.idx: st.vars['_i'] = vint(ob.idx[-1])
     return st
+if opt('--goal'):
+    st = setup([]); st.spec += 1
+    ob.goal = E.truthy(E.ev(parse_spec(opt('--goal')[0])))
+subs = smt.split_goal(smt.flatten_hyps(ob.pc), ob.goal, [])
 for k,(pc2,g,sk) in enumerate(subs):
     hints = hint_fn(sk)
     st = setup(sk)
@@ -50,3 +53,11 @@ for k,(pc2,g,sk) in enumerate(subs):
                 try: print('     ', x, '=', m.eval(E.ev(parse_spec(x)).z, model_completion=True))
                 except Exception as ex: print('     ', x, 'ERR', ex)
             for c_ in sk: print('     ', c_, '=', m.eval(c_, model_completion=True))
+if opt('--pc'):
+    for h in smt.flatten_hyps(ob.pc):
+        t = str(h).replace('\n',' ')
+        if opt('--pc')[0] in t: print('PC>', t[:int(opt('--pc')[1]) if len(opt('--pc'))>1 else 900]); print()
+if opt('--dump'):
+    pc2,g,sk = subs[0]
+    stages = smt.build_stages(pc2, g, sk, ob.idx, hint_fn(sk), c.float)
+    open(opt('--dump')[0],'w').write(smt.to_smt2(dict(stages)['full']))
